@@ -141,6 +141,26 @@ def reduce(
     return Diff(reduce_iter(d, path))
 
 
+def _equal(a: Any, b: Any) -> bool:
+    """
+    Compare two values as JSON/YAML does, not as Python does.
+
+    In Python, ``True == 1`` and ``False == 0``, at any level of nesting.
+    In Kubernetes objects, these are different values of different types.
+    """
+    match a, b:
+        case bool(), bool():
+            return bool(a == b)
+        case (bool(), _) | (_, bool()):
+            return False
+        case collections.abc.Mapping(), collections.abc.Mapping():
+            return a.keys() == b.keys() and all(_equal(a[key], b[key]) for key in a)
+        case (list() | tuple()), (list() | tuple()):
+            return len(a) == len(b) and all(_equal(x, y) for x, y in zip(a, b))
+        case _:
+            return bool(a == b)
+
+
 def diff_iter(
         a: Any,
         b: Any,
@@ -167,7 +187,7 @@ def diff_iter(
     * https://python-json-patch.readthedocs.io/en/latest/tutorial.html
     """
     match a, b:
-        case a, b if a == b:  # incl. cases when both are None
+        case a, b if _equal(a, b):  # incl. cases when both are None
             pass
         case None, _:
             yield DiffItem(DiffOperation.ADD, path, a, b)
